@@ -190,6 +190,31 @@ func (c *Ctx) Confirm(f *Finding, run func() *Finding) {
 	c.Report(f)
 }
 
+// ConfirmFree is Confirm for cases that involve free-running goroutines (real concurrency in
+// flavour plain): the observed violation is a fact about one real execution, so when it does not
+// reproduce it is still reported, marked as schedule-dependent, instead of being taken for a
+// machinery fault. Deterministic cases must use Confirm.
+func (c *Ctx) ConfirmFree(f *Finding, free bool, run func() *Finding) {
+	if f == nil {
+		return
+	}
+	if !free {
+		c.Confirm(f, run)
+		return
+	}
+	if _, ok := c.bySig[f.Sig]; ok {
+		c.bySig[f.Sig].Count++
+		return
+	}
+	for i := 0; i < 5; i++ {
+		if g := run(); g == nil || g.Sig != f.Sig {
+			f.Sig += " [schedule-dependent: observed in a free-running concurrent execution, not on every re-run]"
+			break
+		}
+	}
+	c.Report(f)
+}
+
 // Try runs fn and converts a panic into a finding signature prefix.
 func Try(fn func()) (panicked bool, msg string) {
 	defer func() {
